@@ -1,6 +1,7 @@
 package main
 
 import (
+	"os/exec"
 	"encoding/json"
 	"go/types"
 	"flag"
@@ -423,6 +424,12 @@ func checkMain(args []string) int {
 		"out_of_subset": sortedKeys(oos), "scope": cfg.Scope, "not_decided": cfg.NotDecided, "bounded": cfg.Bounded,
 		"solver_timeout_s": sec,
 	}
+	// thorough tier: the must-fail corpus of this property (seeded changes and hand-written mutants kept under
+	// seeded/ and selftest/mutants/) is replayed against scratch copies of the current tree; the outcome is evidence about
+	// the check's sensitivity and never changes the verdict on the tree itself
+	if *tier == "thorough" && os.Getenv("VERIF_NO_CORPUS") == "" {
+		ev.Coverage["must_fail_corpus"] = runCorpus(prop)
+	}
 	for _, a := range cfg.Assumptions {
 		assump[a] = true
 	}
@@ -562,4 +569,91 @@ func someReturnReachable(r *FuncResult) bool {
 		}
 	}
 	return false
+}
+
+// runCorpus: apply each stored change of the property to a scratch copy of the current tree and run the quick check on it
+func runCorpus(prop string) []map[string]string {
+	var out []map[string]string
+	self, err := os.Executable()
+	if err != nil {
+		return out
+	}
+	var dirs []string
+	for _, root := range []string{"seeded", filepath.Join("selftest", "mutants")} {
+		es, _ := os.ReadDir(filepath.Join(verifDir, root))
+		for _, e := range es {
+			if e.IsDir() {
+				dirs = append(dirs, filepath.Join(verifDir, root, e.Name()))
+			}
+		}
+	}
+	sort.Strings(dirs)
+	for _, d := range dirs {
+		mb, err := os.ReadFile(filepath.Join(d, "meta.json"))
+		if err != nil {
+			continue
+		}
+		var meta struct {
+			Property string `json:"property"`
+			Expect   string `json:"expect"`
+		}
+		if json.Unmarshal(mb, &meta) != nil || meta.Property != prop {
+			continue
+		}
+		patch := filepath.Join(d, "patch.diff")
+		if _, err := os.Stat(patch); err != nil {
+			continue
+		}
+		rec := map[string]string{"change": filepath.Base(d), "expected": "caught"}
+		if meta.Expect != "" {
+			rec["expected"] = meta.Expect
+		}
+		tmp, err := os.MkdirTemp("", "vcgo-corpus-")
+		if err != nil {
+			continue
+		}
+		func() {
+			defer os.RemoveAll(tmp)
+			repo := filepath.Join(tmp, "repo")
+			if b, err := exec.Command("cp", "-r", repoDir, repo).CombinedOutput(); err != nil {
+				rec["outcome"] = "scratch copy failed: " + firstLines(string(b), 1)
+				return
+			}
+			os.RemoveAll(filepath.Join(repo, ".git"))
+			ap := exec.Command("patch", "-p1", "-s", "-i", patch)
+			ap.Dir = repo
+			if b, err := ap.CombinedOutput(); err != nil {
+				rec["outcome"] = "patch does not apply to the current tree: " + firstLines(string(b), 1)
+				return
+			}
+			vd := filepath.Join(tmp, "verif")
+			os.MkdirAll(vd, 0755)
+			for _, n := range []string{"checks", "spec", "known_findings.json"} {
+				exec.Command("cp", "-r", filepath.Join(verifDir, n), vd).Run()
+			}
+			cmd := exec.Command(self, "check", prop, "--tier", "quick")
+			cmd.Env = append(os.Environ(), "VERIF_REPO="+repo, "VERIF_DIR="+vd, "VERIF_TMP="+tmp)
+			b, _ := cmd.CombinedOutput()
+			viol := strings.Count(string(b), "\nVIOLATION ") + func() int {
+				if strings.HasPrefix(string(b), "VIOLATION ") {
+					return 1
+				}
+				return 0
+			}()
+			if viol > 0 {
+				rec["outcome"] = "caught"
+				for _, l := range strings.Split(string(b), "\n") {
+					if strings.HasPrefix(strings.TrimSpace(l), "obligation ") {
+						rec["first_obligation"] = trunc(strings.TrimSpace(l), 160)
+						break
+					}
+				}
+			} else {
+				rec["outcome"] = "missed"
+			}
+		}()
+		fmt.Printf("CORPUS %s %s: %s (expected %s)\n", prop, rec["change"], rec["outcome"], rec["expected"])
+		out = append(out, rec)
+	}
+	return out
 }
